@@ -13,6 +13,7 @@ import (
 	"log"
 	"os"
 	"path/filepath"
+	"runtime"
 	"sort"
 	"strings"
 	"time"
@@ -171,8 +172,152 @@ func dirPrefix(dagFile string) string {
 	return strings.TrimSuffix(b, filepath.Ext(b))
 }
 
+// ---- crash modes (C07) ----
+// exec  <root> <opsfile> : perform the ops (JSON list) as ONE recording/admin process over <root>/data;
+//                          prints "ack <i>" (unbuffered) after op i has returned. Meant to be killed.
+// query <root> <casefile>: answer all queries of the case over <root>/data + list files with their parse result.
+func execMode(root, opsFile string) {
+	runtime.LockOSThread()
+	b, err := os.ReadFile(opsFile)
+	if err != nil {
+		os.Exit(3)
+	}
+	var c hcase
+	if json.Unmarshal(b, &c) != nil {
+		os.Exit(3)
+	}
+	dataDir := filepath.Join(root, "data")
+	paths := make([]string, len(c.Dags))
+	for i, d := range c.Dags {
+		paths[i] = filepath.Join(root, "dags", d)
+	}
+	writers := map[int]persistence.HistoryStore{}
+	writerDag := map[int]int{}
+	admin := jsondb.New(dataDir, c.Today)
+	for i, o := range c.Ops {
+		switch o.Op {
+		case "open":
+			w := jsondb.New(dataDir, c.Today)
+			writers[o.K] = w
+			writerDag[o.K] = o.D
+			_ = w.Open(paths[o.D], time.UnixMilli(o.T).UTC(), o.Req)
+		case "write":
+			if w := writers[o.K]; w != nil {
+				_ = w.Write(mkStatus(c.Dags[writerDag[o.K]], o.Req, o.P, o.St))
+			}
+		case "close":
+			if w := writers[o.K]; w != nil {
+				_ = w.Close()
+				delete(writers, o.K)
+			}
+		case "update":
+			_ = admin.Update(paths[o.D], o.Req, mkStatus(c.Dags[o.D], o.Req, o.P, o.St))
+		case "rename":
+			_ = admin.Rename(paths[o.D], paths[o.D2])
+		case "removeOld":
+			_ = admin.RemoveOld(paths[o.D], o.Days)
+		case "removeAll":
+			_ = admin.RemoveAll(paths[o.D])
+		case "age":
+			ageDag(dataDir, c.Dags[o.D], o.Days)
+		}
+		os.Stdout.WriteString(fmt.Sprintf("ack %d\n", i))
+	}
+}
+
+func ageDag(dataDir, dagName string, days int) {
+	filepath.Walk(dataDir, func(p string, info os.FileInfo, e error) error {
+		if e == nil && !info.IsDir() && strings.HasPrefix(filepath.Base(filepath.Dir(p)), dirPrefix(dagName)+"-") {
+			mt := info.ModTime().Add(-time.Duration(days) * 24 * time.Hour)
+			os.Chtimes(p, mt, mt)
+		}
+		return nil
+	})
+}
+
+type fileInfo struct {
+	Rel  string `json:"rel"`
+	Last string `json:"last"` // payload of the last parseable status, "" if none
+	Req  string `json:"req"`
+	Size int64  `json:"size"`
+}
+
+func queryMode(root, caseFile string) {
+	b, err := os.ReadFile(caseFile)
+	if err != nil {
+		os.Exit(3)
+	}
+	var c hcase
+	if json.Unmarshal(b, &c) != nil {
+		os.Exit(3)
+	}
+	dataDir := filepath.Join(root, "data")
+	paths := make([]string, len(c.Dags))
+	for i, d := range c.Dags {
+		paths[i] = filepath.Join(root, "dags", d)
+	}
+	var a answer
+	var files []fileInfo
+	pan := ""
+	func() {
+		defer func() {
+			if r := recover(); r != nil {
+				pan = fmt.Sprint(r)
+			}
+		}()
+		reader := jsondb.New(dataDir, c.Today)
+		a.Find = map[string]string{}
+		a.Recent = map[string][]string{}
+		for d := range c.Dags {
+			for _, r := range c.Reqs {
+				sf, e := reader.FindByRequestID(paths[d], r)
+				if e != nil {
+					a.Find[fmt.Sprintf("%d/%s", d, r)] = errClass(e)
+				} else {
+					a.Find[fmt.Sprintf("%d/%s", d, r)] = sf.Status.Params
+				}
+			}
+			st, e := reader.ReadStatusToday(paths[d])
+			if e != nil {
+				a.Latest = append(a.Latest, errClass(e))
+			} else {
+				a.Latest = append(a.Latest, st.Params)
+			}
+			for _, n := range c.Ns {
+				var ps []string
+				for _, sf := range reader.ReadStatusRecent(paths[d], n) {
+					ps = append(ps, sf.Status.Params)
+				}
+				a.Recent[fmt.Sprintf("%d/%d", d, n)] = ps
+			}
+		}
+		filepath.Walk(dataDir, func(p string, info os.FileInfo, e error) error {
+			if e == nil && !info.IsDir() {
+				rel, _ := filepath.Rel(dataDir, p)
+				fi := fileInfo{Rel: rel, Size: info.Size()}
+				if st, e := jsondb.ParseFile(p); e == nil && st != nil {
+					fi.Last, fi.Req = st.Params, st.RequestID
+				}
+				files = append(files, fi)
+			}
+			return nil
+		})
+	}()
+	out, _ := json.Marshal(map[string]any{"answer": a, "files": files, "panic": pan})
+	os.Stdout.Write(out)
+	os.Stdout.WriteString("\n")
+}
+
 func main() {
 	log.SetOutput(io.Discard)
+	if len(os.Args) >= 4 && os.Args[1] == "exec" {
+		execMode(os.Args[2], os.Args[3])
+		return
+	}
+	if len(os.Args) >= 4 && os.Args[1] == "query" {
+		queryMode(os.Args[2], os.Args[3])
+		return
+	}
 	in := bufio.NewReaderSize(os.Stdin, 1<<22)
 	out := bufio.NewWriter(os.Stdout)
 	defer out.Flush()
